@@ -6,6 +6,7 @@ Property theorems only; helper lemmas are in `Lemmas/Fam*.lean`.
 -/
 import Lemmas.FamIso
 import Lemmas.FamSubgraph
+import Lemmas.FamRamseyWitness
 import Lemmas.FamBinary
 import Lemmas.FamCount
 import Lemmas.Constr
@@ -778,47 +779,92 @@ theorem subgraphFormula_opb (G H : SimpleG) (ind sb : Bool) (α : Assign) :
     (subgraphFormula G H ind sb).toOPB.holds α = (subgraphFormula G H ind sb).holds α :=
   Formula.toOPB_holds α _ (subgraphFormula_wf G H ind sb)
 
-/-! ## T-C02.6 Ramsey witness (defect D25: the size `s` of the independent set is ignored) -/
+/-! ## T-C02.6 Ramsey witness
+(`RamseyWitnessFormula(G, k, s)` after the fix of D25: the old code overwrote `s` with the mapping group and
+encoded "k-clique or k-independent set"; the repaired code — followed by the model — uses one mapping of
+`max k s` rows, of which the first `k` are in use under `C` and the first `s` under `¬C`) -/
 
-/-- `l` lists `k` distinct vertices (increasing with symmetry breaking) that are pairwise adjacent when
+/-- `l` lists `r` distinct vertices (increasing with symmetry breaking) that are pairwise adjacent when
 `C = true` and pairwise non-adjacent when `C = false` -/
-structure IsRamseyTable (G : SimpleG) (k : Nat) (symbreak : Bool) (C : Bool) (l : List Nat) : Prop where
-  len : l.length = k
+structure IsRamseyTable (G : SimpleG) (r : Nat) (symbreak : Bool) (C : Bool) (l : List Nat) : Prop where
+  len : l.length = r
   rng : ∀ v ∈ l, 1 ≤ v ∧ v ≤ G.n
   shape : if symbreak then l.Pairwise (· < ·) else l.Nodup
   mono : l.Pairwise (fun a b => adj G a b = C)
 
-theorem ramseyWitnessCore_nvars (G : SimpleG) (k : Nat) (sb : Bool) :
-    (ramseyWitnessCore G k sb).nvars = 1 + k * G.n := rfl
+/-- variable 1 (`C`) and one mapping of `max k s` rows -/
+theorem ramseyWitnessCore_nvars (G : SimpleG) (k s : Nat) (sb : Bool) :
+    (ramseyWitnessCore G k s sb).nvars = 1 + max k s * G.n := rfl
 
-theorem ramseyWitnessCore_wf (G : SimpleG) (k : Nat) (sb : Bool) : (ramseyWitnessCore G k sb).WF :=
-  wf_of_consIn (ramseyWitnessCore_consIn G k sb)
+theorem ramseyWitnessCore_wf (G : SimpleG) (k s : Nat) (sb : Bool) : (ramseyWitnessCore G k s sb).WF :=
+  wf_of_consIn (ramseyWitnessCore_consIn G k s sb)
 
-/-- parameter validation; the built formula does not depend on `s` -/
+/-- parameter validation (`non_negative_int(k)`, `non_negative_int(s)`); BOTH sizes reach the formula -/
 theorem ramseyWitnessFormula_eq (G : SimpleG) (k s : Int) (sb : Bool) :
     ramseyWitnessFormula G k s sb =
       if k < 0 then .error .valueError else if s < 0 then .error .valueError
-      else .ok (ramseyWitnessCore G k.toNat sb) := rfl
+      else .ok (ramseyWitnessCore G k.toNat s.toNat sb) := rfl
 
-theorem ramseyWitnessFormula_ignores_s (G : SimpleG) (k s s' : Int) (sb : Bool) (hs : 0 ≤ s) (hs' : 0 ≤ s') :
-    ramseyWitnessFormula G k s sb = ramseyWitnessFormula G k s' sb := by
-  have a : ¬ s < 0 := by omega
-  have b : ¬ s' < 0 := by omega
-  simp [ramseyWitnessFormula, a, b]
+/-- a row beyond the rows in use is unconstrained by the (non-)edge clauses -/
+theorem ramP_of_gt (G : SimpleG) (k s : Nat) (sb C : Bool) {i' j j' : Nat} (h : ramRows k s C < i')
+    (hinc : sb = true → j < j') : RamP G k s sb C i' j j' := by
+  have key : ∀ e : Bool, i' ≤ ramRows k s (!e) → C = e := by
+    intro e he
+    cases e <;> cases C <;> simp_all <;> omega
+  refine ⟨fun _ he => key _ he, fun hlt => ?_⟩
+  cases sb
+  · simp only [Bool.false_eq_true, if_false]
+    exact fun he => key _ he
+  · have := hinc rfl; omega
 
-/-- specification theorem — what the code really encodes: variable 1 (`C`) chooses between "the image is a
-`k`-clique" and "the image is a `k`-independent set"; the mapping starts at variable 2 -/
-theorem ramseyWitnessCore_holds (G : SimpleG) (hG : GoodGraph G) (k : Nat) (sb : Bool) (α : Assign) :
-    (ramseyWitnessCore G k sb).holds α = true ↔ ∃ l, IsRamseyTable G k sb (α 1) l ∧ EncL 2 k G.n α l := by
+/-- SPECIFICATION (assignment level).  `C := α 1` selects the alternative and `r := if C then k else s` rows are
+in use.  The formula holds exactly when (a) on all `max k s` rows the relation is a partial injection
+(increasing with symmetry breaking) — `RamSide` — and (b) the rows in use are total and their table `l` lists
+`r` vertices that are pairwise adjacent if `C`, pairwise non-adjacent if `¬C`. -/
+theorem ramseyWitness_holds (G : SimpleG) (hG : GoodGraph G) (k s : Nat) (sb : Bool) (α : Assign) :
+    (ramseyWitnessCore G k s sb).holds α = true ↔
+      RamSide (max k s) G.n sb α ∧
+      ∃ l, IsRamseyTable G (ramRows k s (α 1)) sb (α 1) l ∧ EncL 2 (ramRows k s (α 1)) G.n α l := by
+  have h2 : 1 ≤ 2 := by omega
+  have hrM := ramRows_le_max k s (α 1)
   simp only [Formula.holds, ramseyWitnessCore, List.all_eq_true]
-  rw [List.forall_mem_append, prefix_holds α k G.n (by omega)]
+  rw [List.forall_mem_append, List.forall_mem_append, List.forall_mem_append, ramseyCompleteCons_holds,
+    forceFunctional_holds α _ _ h2, forceInjective_holds α _ _ h2, ramseyEdgeCons_holds]
   constructor
-  · rintro ⟨⟨l, hl, hnd⟩, he⟩
-    obtain ⟨hs, hm⟩ := (ramseyEdges_iff hG hl hnd).1 he
-    exact ⟨l, ⟨hl.len, hl.rng, hs, hm⟩, hl⟩
-  · rintro ⟨l, ⟨_, _, hs, hm⟩, hl⟩
+  · rintro ⟨⟨⟨hc, hf⟩, hi⟩, he⟩
+    have htf : TotFun 2 (ramRows k s (α 1)) G.n α :=
+      ⟨hc, fun i a b => hf i a (by omega)⟩
+    obtain ⟨l, hl⟩ := htf.exists_encL
+    have hnd : l.Nodup := hl.injective_iff.1
+      (fun j a b i c d i' c' d' => hi j a b i c (by omega) i' c' (by omega))
+    have hram := (hl.pairs_iff (fun _ i' j j' => RamP G k s sb (α 1) i' j j')).1
+      (fun i a i' b c => he i a i' b (by omega))
+    obtain ⟨hs, hm⟩ := (ramP_table_iff hG hl.len hnd).1 hram
+    refine ⟨⟨hf, hi, ?_⟩, l, ⟨hl.len, hl.rng, hs, hm⟩, hl⟩
+    intro hsb i a i' b c j d e j' d' e' r r'
+    subst hsb
+    have hp := (he i a i' b c j d e j' d' e' r r').2
+    rcases Nat.lt_trichotomy j j' with hlt | heq | hgt
+    · exact hlt
+    · subst heq
+      have := hi j d e i a (by omega) i' (by omega) c r r'
+      omega
+    · exact absurd (hp hgt) (by simp)
+  · rintro ⟨⟨hf, hi, hinc⟩, l, ⟨_, _, hs, hm⟩, hl⟩
     have hs' : Shape sb l := hs
-    exact ⟨⟨l, hl, hs'.nodup⟩, (ramseyEdges_iff hG hl hs'.nodup).2 ⟨hs, hm⟩⟩
+    have htab := (ramP_table_iff (k := k) (s := s) hG hl.len hs'.nodup).2 ⟨hs, hm⟩
+    refine ⟨⟨⟨hl.totFun.1, hf⟩, hi⟩, ?_⟩
+    intro i a i' b c j d e j' d' e' r r'
+    by_cases hrow : i' ≤ ramRows k s (α 1)
+    · have := htab i a i' b hrow
+      rwa [(hl.rel_iff a (by omega) d e).1 r, (hl.rel_iff (by omega) hrow d' e').1 r'] at this
+    · exact ramP_of_gt G k s sb (α 1) (by omega)
+        (fun hsb => hinc hsb i a i' b c j d e j' d' e' r r')
+
+/-- non-vacuity: in the path `1-2-3` with `k = 2`, `s = 3` two rows are in use under `C`, and `[1, 2]` is the table of
+a 2-clique -/
+example : IsRamseyTable ⟨3, 2, [[], [2], [1, 3], [2]], [(3, 2), (2, 3), (2, 1), (1, 2)]⟩ (ramRows 2 3 true) true true [1, 2] :=
+  ⟨rfl, by decide, by decide, by decide⟩
 
 /-- an independent set of `G` as a set of vertices (strictly increasing list) -/
 def IsIndep (G : SimpleG) (S : List Nat) : Prop :=
@@ -826,59 +872,122 @@ def IsIndep (G : SimpleG) (S : List Nat) : Prop :=
 
 def HasIndep (G : SimpleG) (s : Nat) : Prop := ∃ S, IsIndep G S ∧ S.length = s
 
-/-- the assignment with `C = c` and the mapping given by the table `l` -/
-def ramseyAssign (k N : Nat) (c : Bool) (l : List Nat) : Assign :=
-  fun x => if x = 1 then c else encode 2 k N l x
+/-- the assignment with `C = c`, the first `r` rows of the mapping given by the table `l`, all other rows empty -/
+def ramseyAssign (r N : Nat) (c : Bool) (l : List Nat) : Assign :=
+  fun x => if x = 1 then c else encode 2 r N l x
 
-theorem ramseyAssign_encL {k N : Nat} (c : Bool) {l : List Nat} (hlen : l.length = k)
-    (hr : ∀ v ∈ l, 1 ≤ v ∧ v ≤ N) : EncL 2 k N (ramseyAssign k N c l) l :=
+theorem ramseyAssign_one (r N : Nat) (c : Bool) (l : List Nat) : ramseyAssign r N c l 1 = c := by
+  simp [ramseyAssign]
+
+theorem ramseyAssign_encL {r N : Nat} (c : Bool) {l : List Nat} (hlen : l.length = r)
+    (hr : ∀ v ∈ l, 1 ≤ v ∧ v ≤ N) : EncL 2 r N (ramseyAssign r N c l) l :=
   (encode_encL (st := 2) hlen hr).congr (fun x h1 _ => by
     have : x ≠ 1 := by omega
     simp [ramseyAssign, this])
 
-/-- what the code really decides: a `k`-clique or a `k`-independent set — `s` plays no role -/
-theorem ramseyWitnessCore_sat_iff (G : SimpleG) (hG : GoodGraph G) (k : Nat) (sb : Bool) :
-    (∃ α, (ramseyWitnessCore G k sb).holds α = true) ↔ HasClique G k ∨ HasIndep G k := by
+/-- the relation of `ramseyAssign`: row `i` is mapped to `j` iff it is one of the first `r` rows and `l[i-1] = j` -/
+theorem ramseyAssign_rel {r N : Nat} (c : Bool) {l : List Nat} (hlen : l.length = r)
+    (hr : ∀ v ∈ l, 1 ≤ v ∧ v ≤ N) {i j : Nat} (hi : 1 ≤ i) (hj1 : 1 ≤ j) (hj : j ≤ N) :
+    ramseyAssign r N c l (mapId 2 N i j) = true ↔ i ≤ r ∧ img l i = j := by
+  by_cases h : i ≤ r
+  · rw [(ramseyAssign_encL c hlen hr).rel_iff hi h hj1 hj]
+    exact ⟨fun e => ⟨h, e⟩, fun e => e.2⟩
+  · constructor
+    · intro e
+      exfalso
+      have hne : mapId 2 N i j ≠ 1 := by unfold mapId; omega
+      simp only [ramseyAssign, hne, if_false] at e
+      have hsup := (encode_support e).2
+      have : r * N ≤ (i - 1) * N := Nat.mul_le_mul_right N (by omega)
+      unfold mapId at hsup
+      omega
+    · intro e; exact absurd e.1 h
+
+/-- the side conditions hold for the assignment of a table without repetition (increasing under symmetry breaking) -/
+theorem ramseyAssign_side {r N M : Nat} (sb c : Bool) {l : List Nat} (hlen : l.length = r)
+    (hr : ∀ v ∈ l, 1 ≤ v ∧ v ≤ N) (hs : l.Pairwise (· < ·)) : RamSide M N sb (ramseyAssign r N c l) := by
+  have hl := ramseyAssign_encL c hlen hr
+  refine ⟨?_, ?_, ?_⟩
+  · intro i a _ j d e j' d' e' p p'
+    rw [ramseyAssign_rel c hlen hr a d e] at p
+    rw [ramseyAssign_rel c hlen hr a d' e'] at p'
+    rw [← p.2, ← p'.2]
+  · intro j d e i a _ i' a' _ p p'
+    have q := (ramseyAssign_rel c hlen hr a d e).1 p
+    have q' := (ramseyAssign_rel c hlen hr a' d e).1 p'
+    exact (hl.injective_iff.2 (nodup_of_sorted hs)) j d e i a q.1 i' a' q'.1 p p'
+  · intro _ i a i' b _ j d e j' d' e' p p'
+    have q := (ramseyAssign_rel c hlen hr a d e).1 p
+    have q' := (ramseyAssign_rel c hlen hr (by omega) d' e').1 p'
+    have := (pairwise_img_iff hlen (· < ·)).2 hs i a i' b q'.1
+    rw [q.2, q'.2] at this
+    exact this
+
+/-- THE DOCUMENTED STATEMENT ("True if graph contains either k-clique or an s independent set"):
+satisfiable iff `G` has a `k`-clique or an independent set of size `s`. -/
+def RamseyWitnessDocumented (G : SimpleG) (k s : Nat) (sb : Bool) : Prop :=
+  (∃ α, (ramseyWitnessCore G k s sb).holds α = true) ↔ (HasClique G k ∨ HasIndep G s)
+
+/-- the documented statement, at full strength: every graph, EVERY `k` and `s` (equal or not, larger than the graph
+or zero), both symmetry modes.  (Before the fix of D25 this was provable only under `k = s` —
+`ramseyWitness_sat_iff_partial` — and refuted by `decide` for `k ≠ s`; the two witnesses are kept below.) -/
+theorem ramseyWitness_sat_iff (G : SimpleG) (hG : GoodGraph G) (k s : Nat) (sb : Bool) :
+    (∃ α, (ramseyWitnessCore G k s sb).holds α = true) ↔ (HasClique G k ∨ HasIndep G s) := by
   constructor
   · rintro ⟨α, hα⟩
-    obtain ⟨l, ⟨a, b, c, d⟩, _⟩ := (ramseyWitnessCore_holds G hG k sb α).1 hα
+    obtain ⟨_, l, ⟨a, b, c, d⟩, _⟩ := (ramseyWitness_holds G hG k s sb α).1 hα
     have hnd : l.Nodup := by
       cases sb
       · exact c
       · exact nodup_of_sorted c
     obtain ⟨l', hp, hs, hm⟩ := exists_sorted_mono G hG (α 1) hnd d
     have hr : ∀ v ∈ l', 1 ≤ v ∧ v ≤ G.n := fun v hv => b v (hp.mem_iff.1 hv)
-    have hlen : l'.length = k := by rw [hp.length_eq, a]
+    have hlen : l'.length = ramRows k s (α 1) := by rw [hp.length_eq, a]
     have hm' := (pairwise_mono_iff hG (α 1) (nodup_of_sorted hs)).1 hm
     cases e : α 1
-    · right; rw [e] at hm'; exact ⟨l', ⟨hs, hr, hm'⟩, hlen⟩
-    · left; rw [e] at hm'; exact ⟨l', ⟨hs, hr, hm'⟩, hlen⟩
+    · right; rw [e] at hm' hlen; exact ⟨l', ⟨hs, hr, hm'⟩, hlen⟩
+    · left; rw [e] at hm' hlen; exact ⟨l', ⟨hs, hr, hm'⟩, hlen⟩
   · have build : ∀ (C : Bool) (S : List Nat), S.Pairwise (· < ·) → (∀ v ∈ S, 1 ≤ v ∧ v ≤ G.n) →
-        (∀ u ∈ S, ∀ v ∈ S, u ≠ v → adj G u v = C) → S.length = k →
-        ∃ α, (ramseyWitnessCore G k sb).holds α = true := by
+        (∀ u ∈ S, ∀ v ∈ S, u ≠ v → adj G u v = C) → S.length = ramRows k s C →
+        ∃ α, (ramseyWitnessCore G k s sb).holds α = true := by
       intro C S hs hr hm hk
-      refine ⟨ramseyAssign k G.n C S, (ramseyWitnessCore_holds G hG k sb _).2 ⟨S, ⟨hk, hr, ?_, ?_⟩, ramseyAssign_encL C hk hr⟩⟩
+      refine ⟨ramseyAssign (ramRows k s C) G.n C S, (ramseyWitness_holds G hG k s sb _).2 ?_⟩
+      rw [ramseyAssign_one]
+      refine ⟨ramseyAssign_side sb C hk hr hs, S, ⟨hk, hr, ?_, ?_⟩, ramseyAssign_encL C hk hr⟩
       · cases sb
         · exact nodup_of_sorted hs
         · exact hs
-      · have : ramseyAssign k G.n C S 1 = C := by simp [ramseyAssign]
-        rw [this]
-        exact (pairwise_mono_iff hG C (nodup_of_sorted hs)).2 hm
+      · exact (pairwise_mono_iff hG C (nodup_of_sorted hs)).2 hm
     rintro (⟨S, ⟨hs, hr, hm⟩, hk⟩ | ⟨S, ⟨hs, hr, hm⟩, hk⟩)
     · exact build true S hs hr hm hk
     · exact build false S hs hr hm hk
 
-/-- THE DOCUMENTED STATEMENT ("True if graph contains either k-clique or an s independent set"):
-satisfiable iff `G` has a `k`-clique or an independent set of size `s`.  It is FALSE of the code for
-`k ≠ s` (see the two counterexamples below) and is proved only under `k = s`. -/
-def RamseyWitnessDocumented (G : SimpleG) (k s : Nat) (sb : Bool) : Prop :=
-  (∃ α, (ramseyWitnessCore G k sb).holds α = true) ↔ (HasClique G k ∨ HasIndep G s)
+/-- non-vacuity with `k ≠ s`: the path `1-2-3` has the 2-clique `{1, 2}` (and no independent set of size 3), so the
+formula for `k = 2`, `s = 3` is satisfiable -/
+example : ∃ α, (ramseyWitnessCore ⟨3, 2, [[], [2], [1, 3], [2]], [(3, 2), (2, 3), (2, 1), (1, 2)]⟩ 2 3 true).holds α = true :=
+  (ramseyWitness_sat_iff _ (goodGraph_of_edgeset _ (by decide)) 2 3 true).2
+    (Or.inl ⟨[1, 2], ⟨by decide, by decide, by decide⟩, rfl⟩)
 
-/-- full statement: `∀ G k s sb, GoodGraph G → RamseyWitnessDocumented G k s sb`; proved here for `k = s` -/
-theorem ramseyWitness_sat_iff_partial (G : SimpleG) (hG : GoodGraph G) (k s : Nat) (sb : Bool) (hks : k = s) :
-    RamseyWitnessDocumented G k s sb := by
-  subst hks
-  exact ramseyWitnessCore_sat_iff G hG k sb
+theorem ramseyWitness_documented (G : SimpleG) (hG : GoodGraph G) (k s : Nat) (sb : Bool) :
+    RamseyWitnessDocumented G k s sb := ramseyWitness_sat_iff G hG k s sb
+
+/-- the same for the call `RamseyWitnessFormula(G, k, s)` with integer arguments: refused (ValueError) exactly for a
+negative size, otherwise a formula that is satisfiable iff `G` has a `k`-clique or an independent set of size `s` -/
+theorem ramseyWitnessFormula_sat_iff (G : SimpleG) (hG : GoodGraph G) (k s : Int) (sb : Bool) :
+    (k < 0 ∨ s < 0 → ramseyWitnessFormula G k s sb = .error .valueError) ∧
+    (0 ≤ k → 0 ≤ s → ∃ F, ramseyWitnessFormula G k s sb = .ok F ∧
+      ((∃ α, F.holds α = true) ↔ (HasClique G k.toNat ∨ HasIndep G s.toNat))) := by
+  constructor
+  · intro h
+    unfold ramseyWitnessFormula
+    by_cases hk : k < 0
+    · simp [hk]
+    · have hs : s < 0 := by omega
+      simp [hk, hs]
+  · intro hk hs
+    have a : ¬ k < 0 := by omega
+    have b : ¬ s < 0 := by omega
+    exact ⟨_, by simp [ramseyWitnessFormula, a, b], ramseyWitness_sat_iff G hG k.toNat s.toNat sb⟩
 
 theorem not_hasIndep_of_gt (G : SimpleG) (s : Nat) (h : G.n < s) : ¬ HasIndep G s := by
   rintro ⟨S, ⟨hs, hr, _⟩, hk⟩
@@ -886,6 +995,15 @@ theorem not_hasIndep_of_gt (G : SimpleG) (s : Nat) (h : G.n < s) : ¬ HasIndep G
     (fun v hv => mem_verts.2 (hr v hv))
   rw [verts_length] at this
   omega
+
+/-- no `k`-clique and no independent set of size `s` can exist when both sizes exceed the graph -/
+theorem ramseyWitness_unsat_of_gt (G : SimpleG) (hG : GoodGraph G) (k s : Nat) (sb : Bool) (hk : G.n < k) (hs : G.n < s)
+    (α : Assign) : (ramseyWitnessCore G k s sb).holds α = false := by
+  cases e : (ramseyWitnessCore G k s sb).holds α
+  · rfl
+  · rcases (ramseyWitness_sat_iff G hG k s sb).1 ⟨α, e⟩ with h | h
+    · exact absurd h (not_hasClique_of_gt G k hk)
+    · exact absurd h (not_hasIndep_of_gt G s hs)
 
 /-- two isolated vertices -/
 def twoIsolated : SimpleG := ⟨2, 0, [[], [], []], []⟩
@@ -895,14 +1013,14 @@ def oneVertex : SimpleG := ⟨1, 0, [[], []], []⟩
 theorem twoIsolated_good : GoodGraph twoIsolated := goodGraph_of_edgeset _ (by decide)
 theorem oneVertex_good : GoodGraph oneVertex := goodGraph_of_edgeset _ (by decide)
 
-/-- counterexample 1 (formula satisfiable, documented property false): two isolated vertices, `k = 2`, `s = 3`.
-The assignment `¬C, 1 ↦ 1, 2 ↦ 2` satisfies the formula (checked by `decide`), but there is neither a
-2-clique nor an independent set of size 3. -/
-theorem ramseyWitness_documented_false_sat (sb : Bool) : ¬ RamseyWitnessDocumented twoIsolated 2 3 sb := by
-  intro h
-  have hsat : ∃ α, (ramseyWitnessCore twoIsolated 2 sb).holds α = true :=
-    ⟨ramseyAssign 2 2 false [1, 2], by cases sb <;> decide⟩
-  rcases h.1 hsat with ⟨S, ⟨hs, _, hm⟩, hk⟩ | hI
+/-- regression of D25, witness 1: two isolated vertices, `k = 2`, `s = 3`.  The old formula was satisfied by
+`¬C, 1 ↦ 1, 2 ↦ 2` although there is neither a 2-clique nor an independent set of size 3.  Now that assignment
+falsifies the formula (`decide`) and the formula is unsatisfiable. -/
+theorem ramseyWitness_regression_twoIsolated (sb : Bool) :
+    (ramseyWitnessCore twoIsolated 2 3 sb).holds (ramseyAssign 2 2 false [1, 2]) = false ∧
+    ¬ ∃ α, (ramseyWitnessCore twoIsolated 2 3 sb).holds α = true := by
+  refine ⟨by cases sb <;> decide, fun h => ?_⟩
+  rcases (ramseyWitness_sat_iff twoIsolated twoIsolated_good 2 3 sb).1 h with ⟨S, ⟨hs, _, hm⟩, hk⟩ | hI
   · match S, hk, hs, hm with
     | [a, b], _, hs, hm =>
       have hab : a < b := by simpa using hs
@@ -910,24 +1028,34 @@ theorem ramseyWitness_documented_false_sat (sb : Bool) : ¬ RamseyWitnessDocumen
       simp [adj_eq_contains, twoIsolated] at this
   · exact not_hasIndep_of_gt twoIsolated 3 (by decide) hI
 
-/-- counterexample 2 (documented property true, formula unsatisfiable): one vertex, `k = 2`, `s = 1`.
-`{1}` is an independent set of size 1, but the formula asks for two distinct images. -/
-theorem ramseyWitness_documented_false_unsat (sb : Bool) : ¬ RamseyWitnessDocumented oneVertex 2 1 sb := by
-  intro h
-  have hdoc : HasClique oneVertex 2 ∨ HasIndep oneVertex 1 :=
-    Or.inr ⟨[1], ⟨by simp, by simp [oneVertex], by simp⟩, rfl⟩
-  have := (ramseyWitnessCore_sat_iff oneVertex oneVertex_good 2 sb).1 (h.2 hdoc)
-  rcases this with hc | hi
-  · exact not_hasClique_of_gt oneVertex 2 (by decide) hc
-  · exact not_hasIndep_of_gt oneVertex 2 (by decide) hi
+/-- regression of D25, witness 2: one vertex, `k = 2`, `s = 1`.  `{1}` is an independent set of size 1; the old
+formula (two distinct images required in either case) was unsatisfiable.  Now `¬C, 1 ↦ 1` (second row empty)
+satisfies it. -/
+theorem ramseyWitness_regression_oneVertex (sb : Bool) :
+    (ramseyWitnessCore oneVertex 2 1 sb).holds (ramseyAssign 1 1 false [1]) = true ∧
+    ¬ HasClique oneVertex 2 ∧ HasIndep oneVertex 1 := by
+  refine ⟨by cases sb <;> decide, not_hasClique_of_gt oneVertex 2 (by decide), ?_⟩
+  exact ⟨[1], ⟨by simp, by simp [oneVertex], by simp⟩, rfl⟩
 
-theorem ramseyWitnessCore_cnf (G : SimpleG) (k : Nat) (sb : Bool) (α : Assign) :
-    (ramseyWitnessCore G k sb).toCNF.holds α = (ramseyWitnessCore G k sb).holds α :=
-  Formula.toCNF_holds α _ (ramseyWitnessCore_wf G k sb)
+theorem ramseyWitnessCore_cnf (G : SimpleG) (k s : Nat) (sb : Bool) (α : Assign) :
+    (ramseyWitnessCore G k s sb).toCNF.holds α = (ramseyWitnessCore G k s sb).holds α :=
+  Formula.toCNF_holds α _ (ramseyWitnessCore_wf G k s sb)
 
-theorem ramseyWitnessCore_opb (G : SimpleG) (k : Nat) (sb : Bool) (α : Assign) :
-    (ramseyWitnessCore G k sb).toOPB.holds α = (ramseyWitnessCore G k sb).holds α :=
-  Formula.toOPB_holds α _ (ramseyWitnessCore_wf G k sb)
+theorem ramseyWitnessCore_opb (G : SimpleG) (k s : Nat) (sb : Bool) (α : Assign) :
+    (ramseyWitnessCore G k s sb).toOPB.holds α = (ramseyWitnessCore G k s sb).holds α :=
+  Formula.toOPB_holds α _ (ramseyWitnessCore_wf G k s sb)
+
+/-- the documented statement for what the CNF class emits … -/
+theorem ramseyWitness_cnf_sat_iff (G : SimpleG) (hG : GoodGraph G) (k s : Nat) (sb : Bool) :
+    (∃ α, (ramseyWitnessCore G k s sb).toCNF.holds α = true) ↔ (HasClique G k ∨ HasIndep G s) := by
+  simp only [ramseyWitnessCore_cnf]
+  exact ramseyWitness_sat_iff G hG k s sb
+
+/-- … and for what the OPB class emits -/
+theorem ramseyWitness_opb_sat_iff (G : SimpleG) (hG : GoodGraph G) (k s : Nat) (sb : Bool) :
+    (∃ α, (ramseyWitnessCore G k s sb).toOPB.holds α = true) ↔ (HasClique G k ∨ HasIndep G s) := by
+  simp only [ramseyWitnessCore_opb]
+  exact ramseyWitness_sat_iff G hG k s sb
 
 /-! ## T-C02.4, option `nontrivial` of `GraphIsomorphism`
 (the option was accepted and never read — defect D36, fixed in /repo by 9050d5b; the model follows the fixed code:
